@@ -97,6 +97,19 @@ PROPS = {
          'assumptions': ['SHA-256 / HASH160 / the taproot tweak are abstract functions with fixed output length in the theorems; "for no other" is concluded up to an exhibited collision', 'elliptic-curve facts (x-only key parses, tweaked output key, HASH160) are data supplied by the harness from the real libraries',
                          'observation outside the property: btcd decodes a witness-v1 address with a 20-byte program (non-standard) as P2WPKH; counted in the distribution, not a violation of the property as stated'],
          'partial': 'encode/decode round trip of the string layer (bech32 / base58check) is validated by the differential run and the decode-oracle monitor; the Coq theorems are about the structured address (kind, program, network)'},
+ 'C18': {'runs': runs([{'family': 'locking', 'n': 160, 'shards': 16, 'param': 'proj=C18,blocks=14'}, {'family': 'bridge', 'n': 120, 'shards': 16, 'param': 'proj=C18,ops=45', 'tag': '1'}, {'family': 'export', 'bin': 'ah', 'n': 16, 'shards': 1, 'tag': '2'}],
+                      [{'family': 'locking', 'n': 3000, 'shards': 64, 'param': 'proj=C18,blocks=24'}, {'family': 'bridge', 'n': 2500, 'shards': 64, 'param': 'proj=C18,ops=70', 'tag': '1'}, {'family': 'export', 'bin': 'ah', 'n': 300, 'shards': 2, 'tag': '2'}]),
+         'monitor_props': ['C18'],
+         'rule': LOCKING_RULE + ' ; ' + BRIDGE_RULE + ' ; after every successful end-block (locking) / at random points and at the end (bridge) the real ExportGenesis output goes through JSON, GenesisState.Validate and the real InitGenesis of a fresh keeper set; compared: second export, every key/value of the module stores (primary and derived collections), validators returned to CometBFT vs ActiveValidators; application level: ExportAppStateAndValidators -> InitChain of a fresh application -> validators, second export',
+         'assumptions': ['a collections.Sequence never written reads as 0 and InitGenesis writes the 0: treated as equal', 'zero-valued slashed totals read as zero whether present or absent: treated as equal',
+                         'relayer boarding queues are compared as multisets: InitGenesis rebuilds them from the voter records in address order while the running chain keeps request order; no query exposes the queue and the property asks for the same invariants (observation recorded in DESIGN.md)'],
+         'partial': 'Coq theorems cover the locking module (the one with derived collections and validator hand-over); derived_ok / set_ok of every reached model state is evaluated in the correspondence run (components 15, 16), their inductive preservation proof is in progress; relayer and bitcoin round trips are decided by the differential run only'},
+ 'C19': {'runs': runs([{'family': 'fuzz', 'bin': 'ah', 'n': 160, 'shards': 1}, {'family': 'bridge', 'n': 100, 'shards': 16, 'param': 'proj=C19,ops=45', 'tag': '1'}, {'family': 'locking', 'n': 100, 'shards': 16, 'param': 'proj=C19,blocks=12', 'tag': '2'}],
+                      [{'family': 'fuzz', 'bin': 'ah', 'n': 4000, 'shards': 4}, {'family': 'bridge', 'n': 2500, 'shards': 64, 'param': 'proj=C19,ops=70', 'tag': '1'}, {'family': 'locking', 'n': 2500, 'shards': 64, 'param': 'proj=C19,blocks=24', 'tag': '2'}]),
+         'monitor_props': ['C19'],
+         'rule': 'on the real application behind ABCI, two replicas: every chain message type with one shape mutation found by reflection (nil sub-message, nil / empty / doubled repeated field, byte fields of length 0,1,7,9,31,33,63,79,81,255,70000, boundary integers, odd strings), raw transaction bytes truncated / bit-flipped / extended / random, arbitrary decodable execution-layer request lists (13 request kinds with boundary amounts, unknown validators / tokens / ids, junk addresses), shape-mutated block messages; through CheckTx, PrepareProposal, ProcessProposal, FinalizeBlock, Commit; a failed input must leave the four module stores equal to the replica that never saw it; plus keeper-level histories whose result classes (ok / error / recovered panic) are predicted by the model; distinct = distinct (kind, message type, outcome)',
+         'assumptions': ['a proposal rejected by ProcessProposal is never finalised (honest majority): rejected proposals are not forced into FinalizeBlock', 'messages that cannot be serialised (nil element of a repeated field) are not inputs a node can receive'],
+         'partial': 'crash-freedom of the Go process itself is an implementation-level fact established by the fuzz run (a crash is detected through current.json); the Coq theorems are the model-level statements that failures change nothing and where the modelled panics are'},
  'C20': {
    'runs': runs([{'family': 'params', 'n': 4000, 'shards': 8}],
                 [{'family': 'params', 'n': 120000, 'shards': 32}]),
